@@ -131,7 +131,12 @@ def apply_step(model, spec, step, inputs_written=None):
         if step[0] == 'setnp':
             # users feed numpy scalars
             import numpy as np
-            value = np.float64(value)
+            if float(value).is_integer() and step[1] % 2:
+                value = np.int64(int(value))     # FACTDOUBLE, COUNT-like
+            elif step[1] % 5 == 0:
+                value = np.bool_(value > 0)      # numpy comparison result
+            else:
+                value = np.float64(value)
         try:
             model.set_value(addr, value)
         except Exception as exc:
